@@ -101,9 +101,11 @@ class RateMismatch(Job):
 class Speed(Job):
     prop = "C10"
 
-    def __init__(self, n, tcarrier="datetime64", canary=None, frac=False):
+    def __init__(self, n, tcarrier="datetime64", canary=None, frac=False, min_step=1):
         self.n, self.tcarrier, self.canary, self.frac = n, tcarrier, canary, frac
-        self.name = f"speed n={n} time={tcarrier}{' sub-second stamps' if frac else ''}" + (f" CANARY={canary}" if canary else "")
+        self.min_step = min_step     # 0: fixes less than a second apart (0 whole seconds elapsed) are admitted - used by C02 only
+        self.name = (f"speed n={n} time={tcarrier}{' sub-second stamps' if frac else ''}{' incl. steps below 1 s' if min_step == 0 else ''}"
+                     + (f" CANARY={canary}" if canary else ""))
         if canary:
             self.expect_canary_sat = True
             self.validate_witnesses = False
@@ -115,7 +117,10 @@ class Speed(Job):
         S = Struct()
         S.lon = [V.float(f"lon{i}", nan=True, lo=-180, hi=180, menu=LON_MENU) for i in range(self.n)]
         S.lat = [V.float(f"lat{i}", nan=True, lo=-90, hi=90, menu=LAT_MENU) for i in range(self.n)]
-        S.t = V.times_increasing("t", self.n, frac=self.frac)
+        S.t = V.times_increasing("t", self.n, frac=self.frac, min_step=self.min_step)
+        if self.min_step == 0:
+            for a, b in zip(S.t, S.t[1:]):
+                V.assume((a < b).b)          # still strictly increasing
         S.st = V.float("st", lo=0)
         S.ft = V.float("ft", lo=0)
         return S
